@@ -29,3 +29,27 @@ func TestExploreSubchartTags(t *testing.T) {
 		fmt.Printf("A.values tags.t1=%v user A.tags.t1=%v user tags.t1=%v -> files %v err=%q\n", c.a, c.ua, c.ur, obs.Files, obs.Err)
 	}
 }
+
+// TestExploreOwnDefaultOfConditionKey documents (without judging) whether a
+// dependency's *own* values.yaml default for its condition key switches it:
+// it does at the first level (also under an alias) and for un-aliased nested
+// dependencies, but not for an aliased dependency below the first level (the
+// alias is applied after the parent's values were coalesced). Outside the
+// generated alphabet: the statement does not say whether such a default is part
+// of "the parent's effective values".
+func TestExploreOwnDefaultOfConditionKey(t *testing.T) {
+	quiet()
+	off := map[string]any{"enabled": false}
+	cases := map[string]*Case{
+		"P>[A], A/values.yaml enabled=false, condition A.enabled":     {Root: &ChartDef{Name: "P", Deps: []DepDef{{Name: "A", Condition: "A.enabled"}}, Subs: []*ChartDef{{Name: "A", Defaults: off}}}},
+		"P>[a2=A], A/values.yaml enabled=false, condition a2.enabled": {Root: &ChartDef{Name: "P", Deps: []DepDef{{Name: "A", Alias: "a2", Condition: "a2.enabled"}}, Subs: []*ChartDef{{Name: "A", Defaults: off}}}},
+		"P>[A>[C]], C/values.yaml enabled=false, condition C.enabled": {Root: &ChartDef{Name: "P", Deps: []DepDef{{Name: "A"}}, Subs: []*ChartDef{
+			{Name: "A", Deps: []DepDef{{Name: "C", Condition: "C.enabled"}}, Subs: []*ChartDef{{Name: "C", Defaults: off}}}}}},
+		"P>[A>[c2=C]], C/values.yaml enabled=false, condition c2.enabled": {Root: &ChartDef{Name: "P", Deps: []DepDef{{Name: "A"}}, Subs: []*ChartDef{
+			{Name: "A", Deps: []DepDef{{Name: "C", Alias: "c2", Condition: "c2.enabled"}}, Subs: []*ChartDef{{Name: "C", Defaults: off}}}}}},
+	}
+	for name, cs := range cases {
+		obs := runHelm(cs, nil)
+		fmt.Printf("%-62s -> rendered %v\n", name, obs.Files)
+	}
+}
